@@ -4,6 +4,7 @@ import Mathlib.Data.Nat.ModEq
 import Mathlib.Tactic.NormNum
 import Extracted.Guards
 import Extracted.Consts
+import Model.Ecdsa
 
 /-! # C12 — key generation is a fixed, in-range, deterministic function of the seed -/
 
@@ -127,6 +128,22 @@ theorem tie_guards (len : Int) :
 
 example : 2 ≤ Ecdsa.p256.n ∧ 2 ≤ Ecdsa.k256.n := by decide
 
+/-! ### the generators -/
+
+/-- **the four generators the public keys are multiples of are points of their curves annihilated by the group order**
+    (kernel evaluation of the model's own arithmetic on the real constants): `G1`, `G2` of BLS12-381 by `r`, the base
+    points of P-256 and secp256k1 by `n`. Since `r` and both `n` are prime (Pratt certificates, `Proofs/Primes.lean`) and
+    the generators are not the point at infinity, their order is exactly `r`, resp. `n`: `sk ↦ sk • G` is injective on
+    `[1, r-1]`, resp. `[1, n-1]` -/
+theorem generators_have_prime_order :
+    (Curve.onCurve Bls.E1 Bls.g1 = true ∧ Curve.mul Bls.E1 Bls.r Bls.g1 = none ∧ Bls.g1.isSome = true) ∧
+    (Curve.onCurve Bls.E2 Bls.g2 = true ∧ Curve.mul Bls.E2 Bls.r Bls.g2 = none ∧ Bls.g2.isSome = true) ∧
+    (Curve.onCurve Ecdsa.p256.C Ecdsa.p256.g = true ∧ Curve.mul Ecdsa.p256.C Ecdsa.p256.n Ecdsa.p256.g = none ∧
+      Ecdsa.p256.g.isSome = true) ∧
+    (Curve.onCurve Ecdsa.k256.C Ecdsa.k256.g = true ∧ Curve.mul Ecdsa.k256.C Ecdsa.k256.n Ecdsa.k256.g = none ∧
+      Ecdsa.k256.g.isSome = true) := by
+  decide +kernel
+
 end Props.C12
 
 #print axioms Props.C12.mapToFr_eq
@@ -135,3 +152,4 @@ end Props.C12
 #print axioms Props.C12.ecdsa_key_range
 #print axioms Props.C12.deterministic
 #print axioms Props.C12.tie_guards
+#print axioms Props.C12.generators_have_prime_order
